@@ -986,6 +986,27 @@ func suiteC10(s *Shard, n int) {
 			o2.Reset = 0
 			ops = append(head, r.Program(o2)...)
 		}
+		if r.Chance(6) {
+			// an Encoder used from its zero value (the default metadata is implied), then Reset to metadata that equals the
+			// zero value of the struct — an all-zero viewBox and an all-transparent palette — or to the default metadata, or
+			// twice to the same (round 5, C10-I: Reset kept the header already in the buffer when the metadata "had not
+			// changed", but the implied default metadata was never recorded)
+			metas := []Call{{Name: "reset"}, {Name: "reset", VB: ivg.DefaultViewBox, Pal: ivg.DefaultPalette}, {Name: "reset", VB: ivg.ViewBox{MinX: -1, MinY: -1, MaxX: 1, MaxY: 1}, Pal: r.Palette()}}
+			head := []Call{{Name: []string{"csel", "rc", "bytes", "lod"}[r.Intn(4)], U8: 3, F: fl(1, 2)}}
+			for k := 1 + r.Intn(3); k > 0; k-- {
+				m := metas[r.Intn(3)]
+				head = append(head, m)
+				if r.Bool() {
+					head = append(head, m)
+				}
+				if r.Bool() {
+					head = append(head, Call{Name: "bytes"})
+				}
+			}
+			o2 := o
+			o2.Reset, o2.Malformed = 0, 0
+			ops = append(head, r.Program(o2)...)
+		}
 		line := EncCase(ops)
 		obs := s.EmitRun(line)
 		s.Sig("h:" + progSig(ops) + fmt.Sprint(strings.Contains(obs, "E=")))
@@ -1737,6 +1758,16 @@ func suiteC04(s *Shard, n int) {
 			cs = append(r.RegProgram(ProgOpts{MaxPaths: 2}, true), cs...)
 		}
 		rect := r.Rect()
+		if r.Chance(4) {
+			// rasters far larger than any image that is allocated (the recording rasteriser allocates nothing): the LOD test
+			// reads the height whatever it is, and nothing else disables a path (round 5, C04-J: a "robustness" guard
+			// disabling every path on rasters above 2^24 pixels in one dimension)
+			big, small := 1<<24+1+r.Intn(1<<22), 1+r.Intn(64)
+			if r.Bool() {
+				big, small = small, big
+			}
+			rect = image.Rect(0, 0, big, small)
+		}
 		smp := r.SamplePoints(rect)
 		cs = r.Retarget(cs, rect, 15)
 		s.emitRen(rect, smp, cs)
@@ -1821,6 +1852,13 @@ func suiteC06(s *Shard, n int) {
 				// ellipse, without it a sliver
 				name = "a"
 				ch := []float32{1.0 / 64, 1.0 / 256, 1.0 / 1024, 1.0 / 16}[r.Intn(4)]
+				if r.Chance(35) {
+					// … down to a chord some 1e-7 of the radius: the angle between the two radius vectors is tiny, not zero
+					// (round 5, C06-I: cosines above 1-1e-12 taken for "parallel", the full ellipse vanished).  Not below: at
+					// about 1.5e-8 of the radius the cosine of that angle IS 1 in float64 and the unchanged code draws nothing
+					// either (observed while building this; such chords are not "moderate magnitudes", see DESIGN §11.5)
+					ch = float32(math.Ldexp(1, -14-r.Intn(5)))
+				}
 				x, y = []float32{ch, -ch, 0, ch}[r.Intn(4)], []float32{0, ch, -ch, ch}[r.Intn(4)]
 			}
 			if r.Chance(12) {
